@@ -37,7 +37,14 @@ def dkey(d):
     return d["krate"] + d.get("raw", d["path"])
 
 
+def _fill_fn_index(F):
+    if not taint.FN_INDEX:
+        for f in F.all_fns():
+            taint.FN_INDEX[(f["d"]["krate"], f["d"].get("raw"))] = f
+
+
 def rule_hash(ctx):
+    _fill_fn_index(ctx.facts())
     res = RuleResult("R-C20-hash", "every hash-container iteration (direct or through an order-returning workspace fn) has an order-insensitive consumer")
     F = ctx.facts()
     derived = {}   # dkey -> (fn, how)
